@@ -68,8 +68,12 @@ def classesOf (s : SrcCons) : List String :=
   let idx := os.zipIdx
   let prec := idx.any fun (o, i) => o == .inter && idx.any (fun (o', j) => o' == .union && i < j)
   let exTail := idx.any fun (o, i) => o == .except && i + 1 < os.length
+  -- a marker behind the last parenthesis belongs to the element set; the code keeps it only if the set has a bound
+  let unboundedSet := s.outerMarker && !s.isSize && !s.allExcept &&
+    (match hull (parse s.chain) with | some iv => iv.lo.isNone && iv.hi.isNone | none => false)
   (if prec then ["C04_no_operator_precedence"] else []) ++
-  (if exTail then ["C04_except_drops_what_follows"] else [])
+  (if exTail then ["C04_except_drops_what_follows"] else []) ++
+  (if unboundedSet then ["C04_set_level_marker_lost_when_unbounded"] else [])
 
 def finiteEnds (s : SrcCons) : List Int :=
   let e (x : Elem) : List Int := match x with
